@@ -19,6 +19,7 @@ CONSTANTS
   ParseMemoAliased = FALSE
   CommaSeparates = FALSE
   RejectDrops = FALSE
+  MayAcceptedSplits = FALSE
   RejAt = {}
   RejThen = 0
   RejEditAt = {}
